@@ -290,27 +290,32 @@ def run_shard(shard):
         # several files in ONE invocation (same anchor names in both): every
         # file must come out as if it had been rotated alone
         if lo == 0:
-            docs = anchored_docs(okey)
-            grid = [build("hash2", ("secret", "folded"), okey),
-                    build("list3", ("plain", "secret", "null"), okey),
-                    build("hash2", ("plain", "int"), okey)]
-            files = [(lab, text, slots, classes)
-                     for lab, text, slots, classes in docs]
-            files += [("grid%d" % i, t, sl, []) for i, (t, sl) in
-                      enumerate(grid)]
-            for first in files:
-                for second in files:
-                    for backup in (False, True):
-                        check_multi(st, wd, kf, [first, second], backup)
-            # many files of ONE layout in one invocation (a directory of
-            # per-node files): whatever the command remembers of one file -
-            # names, places, object identities - must not leak into the next
-            many = [same_layout_doc(i, okey) for i in range(8)]
-            for count in (3, 5, 8):
-                check_multi(st, wd, kf, many[:count], False)
-            check_multi(st, wd, kf, many, True)
+            multi_family(st, wd, kf, okey)
     st.sample({"case": label, "file": text})
     return st
+
+
+def multi_family(st, wd, kf, okey):
+    """Several files in ONE invocation."""
+    docs = anchored_docs(okey)
+    grid = [build("hash2", ("secret", "folded"), okey),
+            build("list3", ("plain", "secret", "null"), okey),
+            build("hash2", ("plain", "int"), okey)]
+    files = [(lab, text, slots, classes)
+             for lab, text, slots, classes in docs]
+    files += [("grid%d" % i, t, sl, []) for i, (t, sl) in
+              enumerate(grid)]
+    for first in files:
+        for second in files:
+            for backup in (False, True):
+                check_multi(st, wd, kf, [first, second], backup)
+    # many files of ONE layout in one invocation (a directory of
+    # per-node files): whatever the command remembers of one file -
+    # names, places, object identities - must not leak into the next
+    many = [same_layout_doc(i, okey) for i in range(8)]
+    for count in (3, 5, 8):
+        check_multi(st, wd, kf, many[:count], False)
+    check_multi(st, wd, kf, many, True)
 
 
 def same_layout_doc(idx, key):
@@ -534,6 +539,15 @@ def replay(case):
         if label == "wrong-old-key":
             text, _ = build("hash2", ("secret", "plain"), okey)
             check_wrong_key(st, wd, kf, text)
+        elif label.startswith("multi["):
+            # (what one file of an invocation suffers depends on the files
+            # named before it: the family is run whole)
+            multi_family(st, wd, kf, okey)
+            for lst in st.fails.values():
+                for f in lst:
+                    if f["case"]["case"] == label:
+                        return f
+            return None
         elif ":" in label:
             skel, kinds = label.split(":")
             text, slots = build(skel, tuple(kinds.split("/")), okey)
